@@ -128,6 +128,62 @@ def scenario_plain(repo, seed, tmpdir=None):
     return sim, viols, None if took else "no snapshot"
 
 
+def scenario_members(repo, seed, tmpdir=None, committed=False):
+    """A membership change is in the log AFTER the snapshot position (appended, not applied): the member set of the
+    snapshot is the one of its position.  With `committed` the change is applied first and belongs to the snapshot."""
+    import pickle as _p
+    kw = {}
+    if tmpdir:
+        kw = {"journal_dir": tmpdir, "dump": True}
+    sim = Sim(repo, ["a", "b", "c"], seed=seed, conf={"dynamicMembershipChange": True, "useFork": False}, **kw)
+    sim.connect_all()
+    L = sim.elect()
+    if L is None:
+        return sim, [], "no leader"
+    for k in range(3):
+        sim.submit(L, "m%d" % k)
+    sim.run(8)
+    if not committed:
+        for j in sim.voters:
+            if j != L:
+                sim.cut(L, j)          # silent: L keeps leading, nothing commits any more
+    o = sim.objs[L]
+    sim._call(L, o.addNodeToCluster, sim.Node("d"), callback=lambda r, e: None)
+    sim.tick(L, 0.0625)
+    if committed:
+        sim.run(8)
+    sim.compact(L)
+    sim.tick(L, 0.0625)
+    sim.tick(L, 0.0625)
+    viols = []
+    try:
+        data = sim.P(L, "serializer").deserialize()
+    except Exception:
+        data = None
+    if data is None:
+        return sim, [], "no snapshot"
+    k = data[1][1]
+    cluster = sorted(getattr(n, "id", n) for n in data[3])
+    want = set(["a", "b", "c"])
+    ents = []
+    for (idx, term, cmd) in sim.log_of(L):
+        if cmd[:1] == b"\x02":
+            req = _p.loads(cmd[1:])
+            ents.append((idx, req[0], req[1]))
+            if idx <= k:
+                if req[0] == "add":
+                    want.add(req[1])
+                else:
+                    want.discard(req[1])
+    if cluster != sorted(want):
+        viols.append({"signature": "snapshot:member-set-not-at-its-position",
+                      "what": "node %s took a snapshot at position %d; membership entries in its log %s; the snapshot stores "
+                              "member set %s, the commands up to %d define %s" % (L, k, ents, cluster, k, sorted(want))})
+    if not ents or (not committed and ents[-1][0] <= k) or (committed and ents[-1][0] > k):
+        return sim, viols, "membership entry not on the intended side of the snapshot position"
+    return sim, viols, None
+
+
 def _adjust(before, sim, i):
     """The tick that performs the compaction first applies newly committed entries: the snapshot position is
     the applied index of THAT tick; recover it from the snapshot label only when it lies between the
@@ -159,7 +215,9 @@ def run(ctx):
     seen = set()
     for sd in range(ctx.seed * 10, ctx.seed * 10 + ctx.scale(2, 10)):
         for mode in ("mem", "file"):
-            for name, fn in (("blocked", scenario_blocked), ("plain", scenario_plain)):
+            for name, fn in (("blocked", scenario_blocked), ("plain", scenario_plain),
+                             ("members-pending", scenario_members),
+                             ("members-applied", lambda r, s_, t: scenario_members(r, s_, t, committed=True))):
                 tmp = ctx.tmpdir() if mode == "file" else None
                 sim, v, note = fn(ctx.repo, sd, tmp)
                 cases += 1
@@ -179,12 +237,16 @@ def run(ctx):
          "samples": samples, "wall_s": round(time.time() - t0, 2)}
     if not reached_blocked:
         r["inconclusive"] = "no snapshot taken while committed entries were unapplied"
+    elif not any(s[0] == "members-pending" and s[2] for s in seen):
+        r["inconclusive"] = "no snapshot taken while a membership entry was appended and unapplied"
     return r
 
 
 def replay(ctx, violation):
     rp = violation.get("replay", {})
-    fn = scenario_blocked if rp.get("scenario") == "blocked" else scenario_plain
+    fns = {"blocked": scenario_blocked, "plain": scenario_plain, "members-pending": scenario_members,
+           "members-applied": lambda r, s_, t: scenario_members(r, s_, t, committed=True)}
+    fn = fns.get(rp.get("scenario"), scenario_plain)
     tmp = ctx.tmpdir() if rp.get("mode") == "file" else None
     sim, v, note = fn(ctx.repo, rp.get("seed", 1), tmp)
     return {"violated": bool(v), "violations": v[:5], "note": note}
